@@ -159,7 +159,10 @@ def _js(o):
 
 
 def write_evidence(prop, tier, seed, level, coverage, assumptions, wall_s, violations, extra=None):
-    d = os.path.join(boot.VERIF, 'evidence')
+    # (tools that run a check against a deliberately changed copy of the tree set VERIF_EVIDENCE_DIR: /verif/evidence only ever
+    # describes runs against /repo itself)
+    d = os.environ.get('VERIF_EVIDENCE_DIR') or os.path.join(boot.VERIF, 'evidence')
+    os.makedirs(d, exist_ok=True)
     os.makedirs(d, exist_ok=True)
     ev = {'property_id': prop, 'tier': tier, 'seed': int(seed), 'level': level,
           'coverage': coverage, 'assumptions': list(assumptions), 'wall_s': round(wall_s, 2),
